@@ -341,6 +341,16 @@ def main(argv):  # noqa: C901
             pd = B.dtype(flat)
             v = B.vector(rng, total, pd)
             back = check_unravel(v, 'other-vector', 'slice')
+            if total > 0:
+                # "any other 1-D array of the same length and dtype": also VIEWS into larger buffers - a slice that starts in the middle of its
+                # storage, every second element of a longer vector, one row of a batch of flat vectors
+                k_off = rng.randrange(1, 4)
+                views = (('offset-slice', B.vector(rng, total + k_off + 2, pd)[k_off:k_off + total]),
+                         ('strided', B.vector(rng, 2 * total, pd)[::2]),
+                         ('batch-row', B.vector(rng, 3 * total, pd).reshape((3, total))[rng.randrange(1, 3)]))
+                for vname, vv in views:
+                    check_unravel(vv, 'other-vector/' + vname, 'slice')
+                    sink.count(f'vector-view:{backend}:{vname}')
             # ravel(unravel(v)) == v for representable values
             f2, _ = real(back, **kw)
             sink.check(arr_eq(B, f2, v) if n else B.shape(f2) == (0,), f'ravel-unravel-inverse/{backend}', 'ravel(unravel(v)) == v for representable v', ident, lambda: (str(B.dtype(f2)), str(B.dtype(v))))
